@@ -37,6 +37,13 @@ class LexModel:
         self.ctx = ctx
         self.cfg = ctx.config.j
         self.order = [fam for fam, _ in model.regex_parsers(ctx)]
+        # the producers of the two tokenizer stages in execution order, read from the code: [(stage, family or 'month')]
+        try:
+            from .rules.C16 import producers
+            _b, prod = producers(ctx, r"^tokinizer::Tokinizer::<'a>::tokinize$")
+            self.sequence = [(stage, 'month' if str(who).endswith('month_parser') else str(who)) for stage, who, _loc in prod]
+        except AnchorLost:
+            self.sequence = [('language_tokinizer', 'comment'), ('language_tokinizer', 'month')] + [('regex_tokinizer', f) for f in self.order]
         self.cache = {}
         self.zones = set(k.upper() for k in self.cfg.get('timezones', {}))
         self.cur_alias = {k.lower(): v for k, v in self.cfg.get('currency_alias', {}).items()}
@@ -122,13 +129,7 @@ class LexModel:
             hay = line.upper() if fam == 'timezone' else line
             batch += [(p, hay) for p in parse.get(fam, [])]
         self.find_all(batch)
-        for p in parse.get('comment', []):
-            for m in self.cache[(p, line)] or []:
-                add(m['start'], m['end'], 'comment', None, m['text'])
-        for p, month in self.month_patterns(lang):
-            for m in self.cache[(p, line.lower())] or []:
-                add(m['start'], m['end'], 'month', 'Month', sub(m['start'], m['end']), month)
-        for fam in self.order:
+        def run_family(fam):
             hay = line.upper() if fam == 'timezone' else line
             for p in parse.get(fam, []):
                 ms = self.cache[(p, hay)]
@@ -180,6 +181,20 @@ class LexModel:
                         add(s, e, fam, 'Operator', text)
                     else:
                         add(s, e, fam, fam.capitalize(), text)
+
+        def run_month():
+            for p, month in self.month_patterns(lang):
+                for m in self.cache[(p, line.lower())] or []:
+                    add(m['start'], m['end'], 'month', 'Month', sub(m['start'], m['end']), month)
+        prev = None
+        for stage, who in self.sequence:
+            if prev is not None and stage != prev:
+                claims[:] = [c for c in claims if c['kind']]          # type-less claims are forgotten at the end of a stage
+            prev = stage
+            if who == 'month':
+                run_month()
+            elif who in parse or who in self.order:
+                run_family(who)
         # stage 3: aliases re-type any token whose (lower-cased) text an alias key matches
         keys = self.alias_keys(lang)
         if keys:
